@@ -380,9 +380,66 @@ def simplifyTail (spec : OpSpec) (optionalVar : Bool) (ovp : Rat) : List Templat
     let (r, s) := simplifyTail spec optionalVar ovp ts s
     ((o, item) :: r, s)
 
+/-- stage A: the like-term templates — shared variable handling, powers, repetition up to
+`num_terms`, the extra shared template -/
+def simplifyTemplates (numTerms numLike : Nat) (useNoise : Bool) (pp svp : Rat) (likeVars : List Char)
+    (s : Stream) : List Template × Stream :=
+  let (shareVar, s) := randBool svp s
+  let first := likeVars.headD 'a'
+  let likeShare := shareVar && decide (1 < numLike) && !useNoise
+  let (sharedPow, s) : Option (List Char) × Stream := if shareVar then maybePower 100 s else (none, s)
+  let (templates, s) : List Template × Stream :=
+    if likeShare then
+      let (rest, s) := adorn pp (likeVars.drop 2) s
+      ((first, none) :: (first, sharedPow) :: rest, s)
+    else adorn pp likeVars s
+  let sharedTemplate : List Template := if shareVar && !likeShare then [(first, sharedPow)] else []
+  let repeated := ((List.replicate numTerms templates).flatten).take numTerms
+  (repeated ++ sharedTemplate, s)
+
+/-- stage B: `numNoise` noise terms at both ends (`insert(0, …)` reverses the front ones) -/
+def noiseAround (numTerms numNoise : Nat) (pp : Rat) (likeVars : List Char) (templates : List Template)
+    (s : Stream) : Option ((List Template × Nat) × Stream) :=
+  match getRandVarsS numNoise likeVars s with
+  | (none, _) => none
+  | (some noiseVars, s) =>
+    let ((lo, hi), s) := splitS numNoise s
+    let ((front, noiseVars), s) := noiseTemplates pp lo noiseVars s
+    let ((back, _), s) := noiseTemplates pp hi noiseVars s
+    some ((front.reverse ++ templates ++ back, numTerms + 1), s)
+
+/-- how many noise terms: the explicit argument, or `min(5, max(1, num_terms // 3))` -/
+def noiseCount (numTerms : Nat) : Option Nat → Nat
+  | some n => n
+  | none => min 5 (max 1 (numTerms / 3))
+
+def simplifyNoise (useNoise : Bool) (numTerms : Nat) (noiseArg : Option Nat) (pp : Rat) (likeVars : List Char)
+    (templates : List Template) (s : Stream) : Option ((List Template × Nat) × Stream) :=
+  if useNoise then noiseAround numTerms (noiseCount numTerms noiseArg) pp likeVars templates s
+  else some ((templates, numTerms), s)
+
+/-- stage C: optional shuffle, the group positions, the root term and the tail -/
+def simplifyFinish (useGroup : Bool) (sp : Rat) (spec : OpSpec) (optionalVar : Bool) (ovp : Rat)
+    (templates : List Template) (complexity : Nat) (s : Stream) : Option (FlatProblem × Nat) :=
+  let (doShuffle, s) := randBool sp s
+  let (templates, s) := if doShuffle then shuffleG templates s else (templates, s)
+  let (group, s) : Option (Nat × Nat) × Stream :=
+    if useGroup then
+      let half := max (templates.length / 2) 1
+      let (gs, s) := randint 0 (half - 1) s
+      let (ge, s) := randint half (templates.length - 1) s
+      (some (gs, ge), s)
+    else (none, s)
+  match templates with
+  | [] => none
+  | (v, p) :: rest =>
+    let (c, s) := maybeNumber 80 s
+    let (tail, _) := simplifyTail spec optionalVar ovp rest s
+    some (⟨.term c v p, tail, group⟩, complexity)
+
 /-- `gen_simplify_multiple_terms(num_terms, optional_var, op, …)`; the probabilities are passed
 multiplied by 100; `numLike` = `max(2, int(num_terms * inner_terms_scaling))` is computed by the
-caller (float arithmetic); `noiseTerms` = the explicit `noise_terms` argument if given -/
+caller (float arithmetic); `noiseArg` = the explicit `noise_terms` argument if given -/
 def simplifyMultipleTerms (numTerms numLike : Nat) (optionalVar : Bool) (spec : OpSpec)
     (pp ovp np sp svp gp : Rat) (noiseArg : Option Nat) (s : Stream) : Option (FlatProblem × Nat) :=
   let (useGroup, s) := randBool gp s
@@ -392,54 +449,11 @@ def simplifyMultipleTerms (numTerms numLike : Nat) (optionalVar : Bool) (spec : 
   match getRandVarsS numLike [] s with
   | (none, _) => none
   | (some likeVars, s) =>
-    let (shareVar, s) := randBool svp s
-    -- shared variable handling
-    let first := likeVars.headD 'a'
-    let likeShare := shareVar && decide (1 < numLike) && !useNoise
-    let (sharedPow, s) := if shareVar then
-        let (p, s) := maybePower 100 s; (p, s)
-      else (none, s)
-    -- templates: with `likeShare` the first two are (first, no power yet) and (first, sharedPow) and are NOT adorned
-    let (templates, s) : List Template × Stream :=
-      if likeShare then
-        let (rest, s) := adorn pp (likeVars.drop 2) s
-        ((first, none) :: (first, sharedPow) :: rest, s)
-      else adorn pp likeVars s
-    let sharedTemplate : Option Template := if shareVar && !likeShare then some (first, sharedPow) else none
-    -- repeat and trim, then the shared template
-    let repeated := ((List.replicate numTerms templates).flatten).take numTerms
-    let templates := repeated ++ (match sharedTemplate with | some t => [t] | none => [])
-    -- noise
-    let res : Option ((List Template × Nat) × Stream) :=
-      if useNoise then
-        let numNoise := match noiseArg with | some n => n | none => min 5 (max 1 (numTerms / 3))
-        match getRandVarsS numNoise likeVars s with
-        | (none, _) => none
-        | (some noiseVars, s) =>
-          let ((lo, hi), s) := splitS numNoise s
-          let ((front, noiseVars), s) := noiseTemplates pp lo noiseVars s
-          let ((back, _), s) := noiseTemplates pp hi noiseVars s
-          -- `insert(0, …)` reverses the order of the front terms
-          some ((front.reverse ++ templates ++ back, numTerms + 1), s)
-      else some ((templates, numTerms), s)
-    match res with
+    let (templates, s) := simplifyTemplates numTerms numLike useNoise pp svp likeVars s
+    match simplifyNoise useNoise numTerms noiseArg pp likeVars templates s with
     | none => none
     | some ((templates, complexity), s) =>
-      let (doShuffle, s) := randBool sp s
-      let (templates, s) := if doShuffle then shuffleG templates s else (templates, s)
-      let (group, s) : Option (Nat × Nat) × Stream :=
-        if useGroup then
-          let half := max (templates.length / 2) 1
-          let (gs, s) := randint 0 (half - 1) s
-          let (ge, s) := randint half (templates.length - 1) s
-          (some (gs, ge), s)
-        else (none, s)
-      match templates with
-      | [] => none
-      | (v, p) :: rest =>
-        let (c, s) := maybeNumber 80 s
-        let (tail, _) := simplifyTail spec optionalVar ovp rest s
-        some (⟨.term c v p, tail, group⟩, complexity)
+      simplifyFinish useGroup sp spec optionalVar ovp templates complexity s
 
 end Gen
 end Mathy
